@@ -597,8 +597,9 @@ theorem seqBase_pn (mono : Bool) (a : Annotation) (ion : Key) (hres : KnownResid
       chemMassL (μ mono) c = resSum mono a.seq + constMass mono adj + ((a.charge.getD 0 : Int) : Rat) * hplus mono := by
   obtain ⟨rc, hrc, hrm⟩ := residueComp_ok mono a.seq hres
   refine ⟨addAll (addAll rc adj) (addAll [] (protonsComp (a.charge.getD 0))), ?_, ?_⟩
-  · unfold seqBaseComp carrierComp defaultCarrier
-    rw [hrc, bind_ok, hadj, had]
+  · have he : effAdducts a = none := by unfold effAdducts; rw [had]
+    unfold seqBaseComp carrierComp defaultCarrier
+    rw [hrc, bind_ok, hadj, he]
     simp only [hion, if_true]
     rfl
   · rw [chemMassL_addAll, chemMassL_addAll, hrm, protonsComp_mass]
@@ -615,8 +616,9 @@ theorem seqBase_frag (hI : ionTablesOk = true) (mono : Bool) (a : Annotation) (i
     intro h; rw [h] at hion; simp at hion
   obtain ⟨s, base, hs, hb, hbm⟩ := baseAdducts_of_tables hI ion ic hic hn
   refine ⟨addAll (addAll rc adj) (addAll (addAll [] (protonsComp (a.charge.getD 0 - 1))) base), ?_, ?_⟩
-  · unfold seqBaseComp carrierComp defaultCarrier
-    rw [hrc, bind_ok, hadj, had]
+  · have he : effAdducts a = none := by unfold effAdducts; rw [had]
+    unfold seqBaseComp carrierComp defaultCarrier
+    rw [hrc, bind_ok, hadj, he]
     simp only [hion, Bool.false_eq_true, if_false, hs]
     rw [hb]
     rfl
@@ -635,9 +637,16 @@ def compMassCore (env : Env) (b : Annotation) (ion : Key) (isotope : Int) (useIs
   pure (c, delta)
 
 theorem compMass_eq_core (env : Env) (a : Annotation) (ion : Key) (charge : Option Int) (isotope : Int)
-    (adducts : Option ModVal) (isoMods : Option (List Mod)) (useIso : Bool) :
+    (adducts : Option ModVal) (isoMods : Option (List Mod)) (useIso : Bool)
+    (hprobe : staticProbe env (overrideArgs a charge adducts isoMods) = .ok ()) :
     compMass env a ion charge isotope adducts isoMods useIso
-      = compMassCore env (overrideArgs a charge adducts isoMods) ion isotope useIso := rfl
+      = compMassCore env (overrideArgs a charge adducts isoMods) ion isotope useIso := by
+  unfold compMass compMassCore
+  rw [hprobe]
+  rfl
+
+theorem staticProbe_none (env : Env) (b : Annotation) (h : b.static = none) : staticProbe env b = .ok () := by
+  unfold staticProbe; rw [h]; rfl
 
 theorem writtenMods_dropLabile (b : Annotation) (ion : Key) : ∀ m ∈ writtenMods (dropLabile b ion), m ∈ writtenMods b := by
   intro m hm
@@ -690,13 +699,13 @@ theorem compMassCore_ok (env : Env) (mono : Bool) (b : Annotation) (ion : Key) (
       | nil => exact absurd hb hne
       | cons m ms => rfl
   have hsb3 : seqBaseComp (popped env (dropLabile b ion)) ion = .ok sb := by
-    rw [← hsb]; unfold seqBaseComp carrierComp; rw [hseq3, hadd3, hch3]
+    rw [← hsb]; unfold seqBaseComp carrierComp effAdducts; rw [hseq3, hadd3, hch3]
   have hcheck : carrierCheck (popped env (dropLabile b ion)) ion = .ok () := by
-    unfold carrierCheck; rw [hadd3]
+    unfold carrierCheck effAdducts; rw [hadd3]
     cases hb : b.adducts with
     | some l => cases l with
       | nil => exact absurd hb hne
-      | cons m ms => rfl
+      | cons m ms => cases ms <;> rfl
     | none =>
       rcases hcc hb with h | h | h
       · simp [h]; rfl
@@ -756,7 +765,7 @@ theorem mass_eq_compMass_of_tables (hI : ionTablesOk = true) (env : Env) (a : An
     · simp only [hp, if_true, List.mem_append] at hm ⊢; tauto
     · simp only [hp, if_false, List.nil_append, List.mem_append] at hm ⊢; tauto
   have hz : (overrideArgs a o.charge none none).charge.getD 0 = (effCharge a o).getD 0 := by rw [f7]; rfl
-  rw [compMass_eq_core]
+  rw [compMass_eq_core _ _ _ _ _ _ _ _ (staticProbe_none env _ (f1.trans hstatic))]
   by_cases hpn : (o.ion = ionP || o.ion = ionN) = true
   · -- precursor-like types: z protons against z·(H − e)
     have hsb := seqBase_pn o.mono (overrideArgs a o.charge none none) o.ion (f4 ▸ hres) (f3.trans had') adj hadj hpn
@@ -1034,6 +1043,34 @@ theorem condenseWith_props (f : Mod → Rat) (a : Annotation) (map : List (List 
       simpa using this
 
 
+theorem forM_ok {α} (f : α → Except Err Unit) (l : List α) (h : ∀ x ∈ l, f x = .ok ()) :
+    l.foldlM (fun (_ : Unit) x => f x) () = .ok () := by
+  induction l with
+  | nil => rfl
+  | cons x l ih =>
+    rw [List.foldlM_cons, h x List.mem_cons_self, bind_ok]
+    exact ih (fun y hy => h y (List.mem_cons_of_mem _ hy))
+
+/-- the probe of global rules whose target does not occur succeeds when the rule modifications resolve -/
+theorem staticProbe_ok (env : Env) (mono : Bool) (b : Annotation) (st : List Mod) (map : List (List Char × List Mod))
+    (hs : b.static = some st) (hp : env.parseStatic st = .ok map) (hc : AllConsistent env mono (mapMods map)) :
+    staticProbe env b = .ok () := by
+  unfold staticProbe
+  rw [hs]
+  simp only
+  rw [hp, bind_ok]
+  apply forM_ok
+  intro p hpm
+  unfold probeRule
+  split
+  · rfl
+  · have hcp : AllConsistent env mono p.2 := fun m hm => hc m (List.mem_flatMap.mpr ⟨p, hpm, hm⟩)
+    rw [popList_ok env mono p.2 hcp, bind_ok]
+    obtain ⟨c', hc', _⟩ := addMods_ok env mono [] (keptOf env p.2) (kept_has_comp env mono p.2 hcp)
+    simp only
+    rw [hc', bind_ok]
+    rfl
+
 theorem fastMass_lib_static (env : Env) (a : Annotation) (o : Opts) (st : List Mod) (map : List (List Char × List Mod))
     (hs : a.static = some st) (hp : env.parseStatic st = .ok map) (hmr : mapResolves env o.mono map = true)
     (hl : o.isotopeMods = none) (hl' : a.isotope = none)
@@ -1118,7 +1155,7 @@ theorem mass_eq_compMass_static_of_tables (hI : ionTablesOk = true) (env : Env) 
     unfold compMassCore condenseStatic
     rw [f1, hs, g1]
     simp only [hp, bind_ok, pure_bind']
-  rw [compMass_eq_core, hcore]
+  rw [compMass_eq_core _ _ _ _ _ _ _ _ (staticProbe_ok env o.mono _ st map (f1.trans hs) hp hconsM), hcore]
   rw [f4] at g6 g6g
   by_cases hpn : (o.ion = ionP || o.ion = ionN) = true
   · have hsb := seqBase_pn o.mono (condenseWith (overrideArgs a o.charge none none) map) o.ion
@@ -1205,7 +1242,7 @@ theorem adduct_ion (hK : avgKeysOk = true) (mono : Bool) (x : List Nat) (h : add
       ring
     · simp only [he, if_false, decide_false, Bool.false_or] at h ⊢
       obtain ⟨m, hm⟩ := Option.isSome_iff_exists.mp h
-      rw [hm]
+      rw [adductElemMass_of_table mono sym m hm]
       have hel : μ mono sym = m := elem_of_table hK mono sym m hm
       have hs : setKey [(sym, (cnt : Rat))] kE (-1 * (q : Rat) * (cnt : Rat)) = [(sym, (cnt : Rat)), (kE, -1 * (q : Rat) * (cnt : Rat))] := by
         simp [setKey, he]
@@ -1261,31 +1298,31 @@ theorem adducts_str (hK : avgKeysOk = true) (mono : Bool) (s : List Nat)
 
 /-- where the adduct list comes from: the `charge_adducts` argument, or the annotation (`PEPTIDE/2[+Na+,+K+]`) -/
 def AdductSource (a : Annotation) (o : Opts) (s : List Char) : Prop :=
-  o.adducts = some (.str s) ∨ (o.adducts = none ∧ ∃ k ms, a.adducts = some (⟨.str s, k⟩ :: ms))
+  o.adducts = some (.str s) ∨ (o.adducts = none ∧ ∃ k, a.adducts = some [⟨.str s, k⟩])
 
 theorem resolve_of_source (a : Annotation) (o : Opts) (s : List Char) (h : AdductSource a o s)
     (hl : o.isotopeMods = none) (hl' : a.isotope = none) :
     resolveArgs a o = .ok ⟨effCharge a o, some (.str s), none⟩ := by
   unfold resolveArgs effLabels
   rw [hl, hl']
-  rcases h with h | ⟨h, k, ms, ha⟩
+  rcases h with h | ⟨h, k, ha⟩
   · rw [h]
     cases a.adducts <;> rfl
   · rw [h, ha]; rfl
 
 theorem override_adducts (a : Annotation) (o : Opts) (s : List Char) (h : AdductSource a o s) :
-    ∃ k ms, (overrideArgs a o.charge o.adducts none).adducts = some (⟨.str s, k⟩ :: ms) ∧
+    ∃ k, (overrideArgs a o.charge o.adducts none).adducts = some [⟨.str s, k⟩] ∧
     (overrideArgs a o.charge o.adducts none).static = a.static ∧
     (overrideArgs a o.charge o.adducts none).isotope = a.isotope ∧
     (overrideArgs a o.charge o.adducts none).seq = a.seq ∧
     writtenMods (overrideArgs a o.charge o.adducts none) = writtenMods a ∧
     (∀ ion, placedMods (overrideArgs a o.charge o.adducts none) ion = placedMods a ion) := by
-  rcases h with h | ⟨h, k, ms, ha⟩
+  rcases h with h | ⟨h, k, ha⟩
   · rw [h]
-    exact ⟨1, [], by cases o.charge <;> rfl, by cases o.charge <;> rfl, by cases o.charge <;> rfl,
+    exact ⟨1, by cases o.charge <;> rfl, by cases o.charge <;> rfl, by cases o.charge <;> rfl,
       by cases o.charge <;> rfl, by cases o.charge <;> rfl, fun _ => by cases o.charge <;> rfl⟩
   · rw [h]
-    exact ⟨k, ms, by cases o.charge <;> exact ha, by cases o.charge <;> rfl, by cases o.charge <;> rfl,
+    exact ⟨k, by cases o.charge <;> exact ha, by cases o.charge <;> rfl, by cases o.charge <;> rfl,
       by cases o.charge <;> rfl, by cases o.charge <;> rfl, fun _ => by cases o.charge <;> rfl⟩
 
 /-- **the identity with an explicit adduct list** (any ion type: the list replaces the whole charge carrier in both
@@ -1301,7 +1338,7 @@ theorem mass_eq_compMass_adducts_of_tables (hK : avgKeysOk = true) (env : Env) (
       mass env a o = .ok (chemMassL (μ o.mono) c + d + o.loss + adductGap o.mono (s.map Char.toNat)
         + gapSum env o.mono (placedMods a o.ion)) := by
   obtain ⟨adj, hadj⟩ := Option.isSome_iff_exists.mp hadj
-  obtain ⟨k, ms, fa, f1, f2, f4, f5, f6⟩ := override_adducts a o s hsrc
+  obtain ⟨k, fa, f1, f2, f4, f5, f6⟩ := override_adducts a o s hsrc
   obtain ⟨carrier, hcar, hmass⟩ := adducts_str hK o.mono (s.map Char.toNat) hions
   have hfa : fragmentAdjMass o.mono o.ion = some (constMass o.mono adj) :=
     congrArg (Option.map (constMass o.mono)) hadj
@@ -1319,13 +1356,15 @@ theorem mass_eq_compMass_adducts_of_tables (hK : avgKeysOk = true) (env : Env) (
   have hsb : ∃ c, seqBaseComp (overrideArgs a o.charge o.adducts none) o.ion = .ok c ∧
       chemMassL (μ o.mono) c = resSum o.mono a.seq + constMass o.mono adj + chemMassL (μ o.mono) carrier := by
     refine ⟨addAll (addAll rc adj) carrier, ?_, ?_⟩
-    · unfold seqBaseComp carrierComp chargeAdductsComp
-      rw [f4, hrc, bind_ok, hadj, fa]
+    · have he : effAdducts (overrideArgs a o.charge o.adducts none) = some (.str s) := by
+        unfold effAdducts; rw [fa]; rfl
+      unfold seqBaseComp carrierComp chargeAdductsComp
+      rw [f4, hrc, bind_ok, hadj, he]
       simp only
       rw [hcar]
       rfl
     · rw [chemMassL_addAll, chemMassL_addAll, hrm]; rfl
-  rw [compMass_eq_core]
+  rw [compMass_eq_core _ _ _ _ _ _ _ _ (staticProbe_none env _ (f1.trans hstatic))]
   obtain ⟨c, d, hcd, hm⟩ := compMassCore_ok env o.mono (overrideArgs a o.charge o.adducts none) o.ion o.isotope
     o.useIsotopeOnMods (f1.trans hstatic) (f2.trans hl') (by rw [fa]; simp) (f4 ▸ hres) (f5 ▸ hcons)
     (fun h => by rw [fa] at h; cases h) _ hsb
